@@ -237,6 +237,31 @@ Fixpoint iso_b (nurs_of kids_of : table) (s : stack) {struct s} : bool :=
          end) && forallb (iso_b nurs_of kids_of) k end) cx end) fs
   end.
 
+Fixpoint frames_len (fs : frames) : nat := match fs with FNil => 0 | FCons _ r => S (frames_len r) end.
+
+(* ---- the runaway-unwrap guard of extract_iter over one unwrapping round.
+   A round unwraps a chain of links outside in; [true] = unwrapping the link yields a frame and
+   the next link (coroutine, generator), [false] = it yields only the next link (Task -> coro).
+   Every unwrap_stackitem() call increments loops_since_progress and the guard trips when it
+   exceeds g; reaching a Frame resets the counter iff [reset] (the code: it does — regenerated
+   as SrcFacts.c14_guard_reset_on_frame).  Result true = "unwrapped more than g times". *)
+Fixpoint guard_run (g : nat) (reset : bool) (cnt : nat) (chain : list bool) : bool :=
+  match chain with
+  | [] => false
+  | yields :: r =>
+      if g <? S cnt then true
+      else guard_run g reset (if yields && reset then 0 else S cnt) r
+  end.
+
+Definition unwrap_guard_const := 100.
+(* the chain of a suspended task: Task, then one frame-yielding link per frame *)
+Definition task_chain (n : nat) : list bool := false :: repeat true n.
+Definition root_chain (r : rootd) : list bool :=
+  match r with
+  | RTask false (Task _ fs) => task_chain (frames_len fs)
+  | _ => [false; false]
+  end.
+
 (* ---- case type of the generated files *)
 Record tcase := {
   tc_root : rootd;          (* the parked world, abstracted from ground truth by harness/c14.py *)
@@ -244,18 +269,20 @@ Record tcase := {
   tc_obs : stack;           (* what the real extract() returned, abstracted *)
   tc_nurs : table;          (* Trio's task.child_nurseries *)
   tc_kids : table;          (* Trio's nursery.child_tasks *)
-  tc_iso : bool             (* recurse=true and the root is a task: check iso_b on tc_obs *)
+  tc_iso : bool;            (* recurse=true and the root is a task: check iso_b on tc_obs *)
+  tc_clean : bool           (* observed: Stack.error is None and Stack.leaf is None, at every level *)
 }.
 
 Definition case_ok (k : tcase) : bool :=
   stack_eqb (extract (tc_rc k) (tc_root k)) (tc_obs k) &&
-  (if tc_iso k then iso_b (tc_nurs k) (tc_kids k) (tc_obs k) else true).
+  (if tc_iso k then iso_b (tc_nurs k) (tc_kids k) (tc_obs k) else true) &&
+  (* no error: the guard is not reached, however long the root's chain *)
+  Bool.eqb (tc_clean k) (negb (guard_run unwrap_guard_const true 0 (root_chain (tc_root k)))).
 
 Definition mismatches (cases : list tcase) : list nat := false_indices 0 (map case_ok cases).
 
 (* non-trivial = the model's result has a nursery context with a child, or a frame that came in
    through a thread hop (more frames out than the root segment has) *)
-Fixpoint frames_len (fs : frames) : nat := match fs with FNil => 0 | FCons _ r => S (frames_len r) end.
 Definition has_child (s : stack) : bool :=
   match s with Stack _ fs =>
     existsb (fun f => match f with FOut _ _ cx =>
